@@ -20,6 +20,9 @@ ORACLE = {   # enumerator -> (size, union member, endianness, width)   [property
 }
 
 
+SHORT_READERS = ('source_get_chunk_atmost', 'source.chunk', 'source_adapt')   # may return before n octets arrived
+
+
 def strip_cast(t):
     while t is not None and t[0] == 'cast':
         t = t[2]
@@ -442,7 +445,8 @@ def run(ck):
     fn = 'flenp_memory_from_source'
     ps = paths(fn)
     if ps is not None:
-        bad = None
+        bad = unknown = None
+        nacc = 0
         seen_nomem = False
         for p in ps:
             facts = eng.path_facts(p)
@@ -463,17 +467,118 @@ def run(ck):
                     bad = 'payload read of %s octets not proved <= size' % fmt(ln)
                 if 'len' not in fmt(ln):
                     bad = 'payload read length %s is not the decoded length' % fmt(ln)
+            ok_branch = dp and any(c == ('cmp', '<=', C(0), dp[0].result) for c in p.cond_terms())
+            if ok_branch and p.ret != C(-12):
+                others = [e for e in p.effects if e.kind in ('call', 'icall') and e is not dp[0]]
+                if len(others) != 1 or (others[0].name != 'source_get_chunk' and others[0].name not in SHORT_READERS):
+                    unknown = 'payload reader %s is not one this rule knows' % [e.name for e in others]
+                elif others[0].name != 'source_get_chunk':
+                    bad = ('payload is read with %s; only one source_get_chunk call guarantees that the whole frame has left the '
+                           'stream before the next prefix is parsed' % [e.name for e in others])
+                elif strip_cast(p.ret) != others[0].result or others[0].args[0] != ('v', 'source'):
+                    bad = 'result of the payload read is not what is returned'
+                else:
+                    nacc += 1
+            elif dp and not ok_branch and (strip_cast(p.ret) != dp[0].result or len([e for e in p.effects if e.kind in ('call', 'icall')]) != 1):
+                bad = 'prefix failure must be returned unchanged before any payload read'
         if not seen_nomem and bad is None:
             bad = 'no -ENOMEM path for length > capacity'
-        ck.verdict(bad is None, 'C13.e', fn, cast.where(u.fn(fn)),
+        if bad is None and unknown is None and nacc != 1:
+            bad = 'expected exactly one accepting path, found %d' % nacc
+        if unknown and bad is None:
+            ck.broken('C13.e', fn, cast.where(u.fn(fn)), unknown)
+        else:
+          ck.verdict(bad is None, 'C13.e', fn, cast.where(u.fn(fn)),
                    'length > size gives -ENOMEM before any payload read; payload read of exactly the decoded length into mem' if bad is None else bad)
     fn = 'decode_prefix'
     ps = paths(fn)
     if ps is not None:
-        bad = None
+        # every path is one of: variable kind -> varint_u64_from_source(source, len) returned;
+        # fixed kind -> exactly one *exact-count* read (source_get_chunk, C17: returns only when all
+        # n octets arrived; the at-most variant may stop inside the prefix) of kind[k].size octets into
+        # the scratch array, its failure returned unchanged, the member parser applied to that array
+        # only after the read succeeded, and the parsed value stored through len.
+        bad = unknown = None
+        nfixed = nvar = 0
+        ksize = ('f', sym.add(('&', ('v', 'kind')), ('v', 'k')), 'size')
         for p in ps:
-            gc = p.calls('source_get_chunk')
-            for g in gc:
-                if 'size' not in fmt(g.args[2]) or 'kind' not in fmt(g.args[2]):
-                    bad = 'prefix read of %s octets, expected kind[k].size' % fmt(g.args[2])
-        ck.verdict(bad is None, 'C13.e', fn, cast.where(u.fn(fn)), 'reads exactly kind[k].size prefix octets' if bad is None else bad)
+            calls = [e for e in p.effects if e.kind in ('call', 'icall')]
+            names = [e.name for e in calls]
+            reads = [e for e in calls if e.kind == 'call' and e.name not in ('varint_u64_from_source',)]
+            if names == ['varint_u64_from_source']:
+                e = calls[0]
+                if list(e.args) != [('v', 'source'), ('v', 'len')] or strip_cast(p.ret) != e.result:
+                    bad = 'variable kind: expected varint_u64_from_source(source, len) returned unchanged'
+                nvar += 1
+                continue
+            if not calls or (calls[0].name != 'source_get_chunk' and calls[0].name not in SHORT_READERS):
+                unknown = 'prefix reader %s is not one this rule knows' % (names[0] if names else '(none)')
+                continue
+            if calls[0].name != 'source_get_chunk':
+                bad = ('the prefix is read with %s; only source_get_chunk guarantees that all kind[k].size octets have '
+                       'arrived before the length is parsed (a short read leaves part of the prefix in the stream)'
+                       % (names[0] if names else 'no call'))
+                continue
+            g = calls[0]
+            if strip_cast(g.args[2]) != ksize:
+                bad = 'prefix read of %s octets, expected kind[k].size' % fmt(g.args[2])
+            if g.args[0] != ('v', 'source'):
+                bad = 'prefix read from %s' % fmt(g.args[0])
+            failed = any(c == ('cmp', '<', g.result, C(0)) for c in p.cond_terms())
+            if failed:
+                if len(calls) != 1 or strip_cast(p.ret) != g.result or p.stores():
+                    bad = 'a failed prefix read must be returned unchanged without parsing'
+                continue
+            if not eng.entails(p, -L(g.result)):
+                bad = 'parser reached without the prefix read known to have succeeded'
+            rest = calls[1:]
+            if p.ret == C(0):
+                nfixed += 1
+                if len(rest) != 1 or rest[0].kind != 'icall' or not rest[0].name.endswith('.parse'):
+                    bad = 'success path without exactly one parser call: %s' % names
+                    continue
+                pc = rest[0]
+                if pc.args[0] != g.args[1]:
+                    bad = 'parser reads %s, the prefix was read into %s' % (fmt(pc.args[0]), fmt(g.args[1]))
+                st = [e for e in p.stores() if e.name == ('i', ('v', 'len'), C(0))]
+                if len(st) != 1 or strip_cast(st[0].args[0]) != pc.result:
+                    bad = 'parsed length is not stored through len'
+            elif rest or p.stores():
+                bad = 'non-success path parses or stores'
+        if bad is None and unknown is None and (nfixed < 3 or nvar != 1):
+            bad = 'expected 3 fixed-size success paths and one variable path, found %d/%d' % (nfixed, nvar)
+        if unknown and bad is None:
+            ck.broken('C13.e', fn, cast.where(u.fn(fn)), unknown)
+        else:
+          ck.verdict(bad is None, 'C13.e', fn, cast.where(u.fn(fn)),
+                   'variable kind delegates to varint_u64_from_source; fixed kinds read exactly kind[k].size octets with the exact-count reader, return its failure unchanged, parse the scratch array and store through len' if bad is None else bad)
+    fn = 'flenp_decode_source_to_sink'
+    ps = paths(fn)
+    if ps is not None:
+        bad = None
+        nok = 0
+        for p in ps:
+            dp = p.calls('decode_prefix')
+            if len(dp) != 1 or list(dp[0].args[:2]) != [('v', 'k'), ('v', 'source')]:
+                bad = 'expected one decode_prefix(k, source, &len)'
+                continue
+            failed = any(c == ('cmp', '<', dp[0].result, C(0)) for c in p.cond_terms())
+            others = [e for e in p.effects if e.kind in ('call', 'icall') and e is not dp[0]]
+            if failed:
+                if others or strip_cast(p.ret) != dp[0].result:
+                    bad = 'prefix failure must be returned unchanged before any transfer'
+                continue
+            if len(others) != 1 or others[0].name != 'sts_n':
+                bad = 'payload transfer is %s, expected sts_n (exact count, C17)' % [e.name for e in others]
+                continue
+            t = others[0]
+            ln = strip_cast(t.args[2])
+            if t.args[0] != ('v', 'source') or t.args[1] != ('v', 'sink') or not (ln[0] == 'h' and 'decode_prefix:len' in fmt(ln)):
+                bad = 'transfers %s, expected sts_n(source, sink, decoded length)' % ', '.join(fmt(a) for a in t.args)
+            if strip_cast(p.ret) != t.result:
+                bad = 'result of the transfer is not returned'
+            nok += 1
+        if bad is None and nok != 1:
+            bad = 'no transfer path'
+        ck.verdict(bad is None, 'C13.e', fn, cast.where(u.fn(fn)),
+                   'prefix failure returned unchanged; otherwise exactly the decoded length is moved with sts_n and its result returned' if bad is None else bad)
